@@ -207,6 +207,7 @@ def finish(mod, tier, seed, total, wall, njobs):
         byfp.setdefault(v["fingerprint"], []).append(v)
     new, knownhits = [], []
     rdir = os.path.join(VERIF, "replays", pid)
+    shutil.rmtree(rdir, ignore_errors=True)  # replay files always belong to the latest run
     for fp, vs in sorted(byfp.items()):
         k = match_known(known, pid, fp)
         if k is not None:
